@@ -1133,7 +1133,7 @@ class TrackByName(Harness):
 
     def oracle(self, skel, cx, cout):
         if isinstance(cout, Exc):
-            return f"track[name] raised {cout}"
+            return f"track[{'locations' if skel.get('locations') else 'name'}] raised {cout}"
         from checks.C09 import GENOMES as G9, dense_py
         genome = G9[skel["genome"]]
         if skel.get("from_dict"):
@@ -1144,7 +1144,7 @@ class TrackByName(Harness):
         exp = dense_py(cx, skel["runs"], genome, "a")
         got = {nm: [int(v) for v in col] for nm, col in cout["dense"].items()}
         return None if got == exp else (f"track over {genome}{' (after a track over another genome with the same names was indexed by name)' if skel['prior'] else ''}: "
-                                        f"track[name] = {got}, the chromosomes' values are {exp}")
+                                        f"track[{'locations, every position' if skel.get('locations') else 'name'}] = {got}, the chromosomes' values are {exp}")
 
 
 from checks.C11 import Pipelines as _Pipelines, chunkings as _chunkings
